@@ -58,6 +58,7 @@ def run(ctx):
         return
     init_sites(ctx, prog)
     deps(ctx, prog)
+    deps_byval(ctx, prog)
     builder(ctx, ctx.program("FULL"))
     byval(ctx, prog)
     twopass(ctx, prog)
@@ -66,7 +67,7 @@ def run(ctx):
     macrolint.hygiene_rule(ctx, ["array_map", "array_from_fn", "__array_map_by_val", "__array_from_fn2", "iter_collect_const", "str_from_iter"], facts.REPO)
     ctx.floor("HYGIENE", 16)
     ctx.floor("INIT", 18)
-    ctx.floor("DEP", 3)
+    ctx.floor("DEP", 4)
     ctx.floor("BUILDER", 5)
     ctx.floor("BYVAL", 3)
     ctx.floor("TWOPASS", 6)
@@ -104,6 +105,7 @@ def deps(ctx, prog):
         paths = sym.through_loops(b, prog, keep_back=True)
         back = [p for p in paths if p.kind == "back"]
         ok = bool(back)
+        bound_msg = None
         for p in back:
             st = [e for e in p.events if e[0] == "store"]
             if len(st) != 1:
@@ -122,10 +124,43 @@ def deps(ctx, prog):
                 good = got == w
             if not good or p.env.get(idx[1]) != ("bin", "Add", idx, sym.I(1)):
                 ok = False
+            # the round runs under `i < len` of the input (with `<=` the last round indexes one past the end and panics)
+            guards = [table.norm_atom(table.strip_gargs(c)) for c in p.conds]
+            if not any(c[0] == "lt" and c[1] == idx and c[2][0] == "len" for c in guards):
+                ok = False
+                bound_msg = "the loop body runs without the test `i < len` (conditions: %s)" % [sym.show_atom(c) for c in p.conds]
+        if not ok and bound_msg:
+            ctx.violation("DEP", name + "|bound", "%s: %s" % (name, bound_msg))
         if not ok:
             ctx.violation("DEP", name, "%s: the value stored at index i is not the closure applied to element i (ascending from 0 by 1)" % name,
                           detail={"back": [[(e[0], show(e[3]) if e[0] == "store" else e[1]) for e in p.events if e[0] in ("store",)] for p in back]})
         ctx.instance("DEP", name, sample={"witness": name})
+
+
+def deps_byval(ctx, prog):
+    """from_fn_!: the closure of round k receives k - a counter that starts at 0 and advances by one per round"""
+    name = "w_from_fn_"
+    b = prog.get("w11::" + name)
+    if b is None:
+        ctx.violation("DEP", name, "witness %s missing" % name)
+        return
+    paths = sym.through_loops(b, prog, keep_back=True)
+    back = [p for p in paths if p.kind == "back"]
+    msg = None if back else "no loop round found"
+    for p in back:
+        calls = [table.strip_gargs(e[2]) for e in p.events if e[0] == "call" and e[1] == "w11::g0"]
+        if len(calls) != 1 or calls[0][3][0] != "L":
+            msg = msg or "a round must call the closure exactly once with the running index (%s)" % [show(c) for c in calls]
+            continue
+        ix = calls[0][3]
+        if p.env.get(ix[1]) != ("bin", "Add", ix, sym.I(1)):
+            msg = msg or "the index passed to the closure is not advanced by one per round (%s)" % show(p.env.get(ix[1], ix))
+        for e in p.events:
+            if e[0] == "loop" and dict(e[2]).get(ix[1]) != sym.I(0):
+                msg = msg or "the index passed to the closure starts at %s, expected 0" % show(dict(e[2]).get(ix[1], ("?",)))
+    if msg:
+        ctx.violation("DEP", name, "%s: %s" % (name, msg))
+    ctx.instance("DEP", name, sample={"witness": name})
 
 
 def builder(ctx, prog):
